@@ -3,6 +3,7 @@ package main
 import (
 	"bytes"
 	"fmt"
+	"github.com/ucan-wg/go-ucan/pkg/policy/literal"
 	"io"
 	"iter"
 	"math"
@@ -256,6 +257,29 @@ func (e *tokEnv) randDelegation(iss *principal) (*delegation.Token, string) {
 				pol = p2
 				tagx = "pol-beyond53"
 			}
+		}
+	}
+	if r.Chance(8) {
+		// a policy nested 17..60 levels deep (not / any / all / and / or alternating)
+		depth := 17 + r.Intn(44)
+		st := pstmt{kind: "==", sel: ".a", val: basicnode.NewInt(1)}
+		for k := 0; k < depth; k++ {
+			switch k % 5 {
+			case 0:
+				st = pstmt{kind: "not", subs: []pstmt{st}}
+			case 1:
+				st = pstmt{kind: "any", sel: ".l", subs: []pstmt{st}}
+			case 2:
+				st = pstmt{kind: "and", subs: []pstmt{st}}
+			case 3:
+				st = pstmt{kind: "all", sel: ".", subs: []pstmt{st}}
+			case 4:
+				st = pstmt{kind: "or", subs: []pstmt{st, {kind: "like", sel: ".b", pat: "*"}}}
+			}
+		}
+		if p2, err := polBuild([]pstmt{st}); err == nil && tagx == "plain" {
+			pol = p2
+			tagx = "pol-deep"
 		}
 	}
 	if r.Chance(30) {
@@ -757,6 +781,11 @@ func genToken(c *Ctx) {
 		e.offer("tok/tamper/swapped-order", cborOf(mkList(sp, basicnode.NewBytes(sig))))
 		e.offer("tok/tamper/extra-sigpayload-entry", e.signEnvelope(p, hdr, tag, pl, ent{"zzz", basicnode.NewInt(1)}))
 		e.offer("tok/tamper/two-payloads", e.signEnvelope(p, hdr, tag, pl, ent{"ucan/other@1", pl}))
+		// a third entry at every position of the canonical key order: before "h", between "h" and the tag, after the tag
+		for _, k := range []string{"", "a-third-entry-of-the-signed-part-longer-than-the-tag", tag + "+second-payload", strings.Repeat("z", len(tag)), strings.Repeat("!", len(tag)), "i"} {
+			e.offer("tok/tamper/extra-sigpayload-entry", e.signEnvelope(p, hdr, tag, pl, ent{k, basicnode.NewInt(1)}))
+			e.offer("tok/tamper/two-payloads", e.signEnvelope(p, hdr, tag, pl, ent{k, pl}))
+		}
 		e.offer("tok/tamper/no-header", func() []byte {
 			sp2 := mkMap(ent{tag, pl})
 			s, _ := p.priv.Sign(cborOf(sp2))
@@ -814,8 +843,8 @@ func genToken(c *Ctx) {
 				basicnode.NewString("/é"), basicnode.NewString("/É"), basicnode.NewString("/crud/Écrire"), basicnode.NewString("/Ω"), basicnode.NewString("/ǅ"), basicnode.NewString("/Ⅳ"), basicnode.NewString("/ほげ")},
 			"iss": {basicnode.NewString("did:key:z"), basicnode.NewString("did:web:example.com"), basicnode.NewString(""), basicnode.NewString(aud),
 				basicnode.NewString(self + "#" + self[8:]), basicnode.NewString(self + "#"), basicnode.NewString(" " + self), basicnode.NewString(self + "\n"), basicnode.NewString("DID:KEY:" + self[8:])},
-			"aud": {basicnode.NewString("did:key:zabc"), basicnode.NewString(""), basicnode.NewString(aud + "#" + aud[8:]), basicnode.NewString(self), basicnode.NewString(aud + "?x")},
-			"sub": {basicnode.NewString("not-a-did"), basicnode.NewString(""), basicnode.NewString(aud + "#" + aud[8:]), basicnode.NewString(self)},
+			"aud": {basicnode.NewString("did:key:zabc"), basicnode.NewString(""), basicnode.NewString("did:key:z"), basicnode.NewString("did:key:"), basicnode.NewString(aud + "#" + aud[8:]), basicnode.NewString(self), basicnode.NewString(aud + "?x")},
+			"sub": {basicnode.NewString("not-a-did"), basicnode.NewString(""), basicnode.NewString("did:key:z"), basicnode.NewString("did:key:"), basicnode.NewString(aud + "#" + aud[8:]), basicnode.NewString(self)},
 			"pol": {J(`[["==",".a",9007199254740992]]`), J(`[["bogus",".a",1]]`), J(`[["==","a",1]]`), J(`[["like",".a","x\\"]]`), J(`[]`), mkList(mkList(basicnode.NewString("=="), basicnode.NewString(".a"), deep(30, big53))), mkList(mkList(basicnode.NewString("=="), basicnode.NewString(".a"), deep(33, big53))), mkList(mkList(basicnode.NewString("=="), basicnode.NewString(".a"), deep(64, big53))), mkList(mkList(basicnode.NewString("=="), basicnode.NewString(".a"), basicnode.NewUint(math.MaxUint64)))},
 			"args": {J(`{"a":9007199254740992}`), J(`{"a":[{"b":-9007199254740992}]}`), mkMap(ent{"u", basicnode.NewUint(math.MaxUint64)}), J(`{}`), J(`{"a":9007199254740991}`),
 				mkMap(ent{"a", deep(31, big53)}), mkMap(ent{"a", deep(32, big53)}), mkMap(ent{"a", deep(33, big53)}), mkMap(ent{"a", deep(40, big53)}), mkMap(ent{"a", deep(64, big53)}),
@@ -1015,6 +1044,54 @@ func genToken(c *Ctx) {
 			want = WList(WStrs([]string{"ka", "path", "limit"}), WStrs([]string{"kb", "path", "limit"}), WStrs([]string{"path", "limit", "later"}))
 		}
 		c.Emit("tok/args-shared", WList(WStr("seq"), WList(want)), obs)
+	}
+
+	// ---- 3c. Go values with byte strings below the top level (maps, slices, named types): stored as exactly
+	// that IPLD value, or refused
+	{
+		type blob []byte
+		bs := func(b ...byte) datamodel.Node { return basicnode.NewBytes(b) }
+		vals := []struct {
+			v    any
+			want datamodel.Node
+		}{
+			{map[string]any{"blob": []byte{1, 2}}, mkMap(ent{"blob", bs(1, 2)})},
+			{[][]byte{{1, 2}, {3}}, mkList(bs(1, 2), bs(3))},
+			{[]any{[]byte{9}, "x"}, mkList(bs(9), basicnode.NewString("x"))},
+			{blob{7, 8}, bs(7, 8)},
+			{map[string][]byte{"k": {1}}, mkMap(ent{"k", bs(1)})},
+			{[]any{map[string]any{"in": []byte{}}}, mkList(mkMap(ent{"in", bs()}))},
+			{[2]byte{1, 2}, bs(1, 2)},
+			{[]uint8{5}, bs(5)},
+			{[]int8{5}, mkList(basicnode.NewInt(5))},
+		}
+		for i, tv := range vals {
+			for _, where := range []string{"args", "meta", "literal"} {
+				obs := safe(func() W {
+					var n datamodel.Node
+					var err error
+					switch where {
+					case "args":
+						a := args.New()
+						if err = a.Add("k", tv.v); err == nil {
+							n, err = a.GetNode("k")
+						}
+					case "meta":
+						m := meta.NewMeta()
+						if err = m.Add("k", tv.v); err == nil {
+							n, err = m.GetNode("k")
+						}
+					default:
+						n, err = literal.Any(tv.v)
+					}
+					if err != nil || datamodel.DeepEqual(n, tv.want) {
+						return WStr("exact-or-refused")
+					}
+					return WList(WStr("altered"), WNode(n))
+				})
+				c.Emit(fmt.Sprintf("tok/lit-bytes/%s-%d", where, i), WList(WStr("seq"), WList(WStr("exact-or-refused"))), obs)
+			}
+		}
 	}
 
 	// ---- 4. Go numbers offered as argument / metadata values
